@@ -651,7 +651,7 @@ def norm_bool_named(sym, value=True):
     return norm_bool(sym, value, named=True)
 
 
-def norm_bool(sym, value=True, named=False):
+def norm_bool(sym, value=True, named=False, maxdepth=12):
     """Normalise a boolean sym to (atom_string, value). Comparisons are canonicalised to `a<b` / `a==b`
     atoms so that `a >= b` reads as (a<b, False) and `b > a` as (a<b, True)."""
     s = strip(sym)
@@ -677,7 +677,7 @@ def norm_bool(sym, value=True, named=False):
         op = CMP_CALLS.get(s[4]) or CMP_CALLS.get(s[1])
         a, b = s[2]
     if op:
-        fa, fb = fmt_sym(a, named=named), fmt_sym(b, named=named)
+        fa, fb = fmt_sym(a, named=named, maxdepth=maxdepth), fmt_sym(b, named=named, maxdepth=maxdepth)
         if op == "Lt":
             return ("%s < %s" % (fa, fb), value)
         if op == "Ge":
@@ -690,7 +690,7 @@ def norm_bool(sym, value=True, named=False):
         if op == "Eq":
             return ("%s == %s" % (x, y), value)
         return ("%s == %s" % (x, y), not value)
-    return (fmt_sym(s, named=named), value)
+    return (fmt_sym(s, named=named, maxdepth=maxdepth), value)
 
 
 def decision_table(fn, start=0, stop_blocks=None, cap=4000):
